@@ -189,9 +189,16 @@ fn moments(req: &Value) -> Value {
             }
         }
     }
-    // (c) cells with stored faces give the same integrals (3D only)
+    // (c) cells with stored faces give the same integrals (3D only), and are still found under their generator index
     if three_d {
         let wf = vi.clone().with_faces();
+        for i in 0..gens.len() {
+            let want = if mask.as_ref().map_or(true, |m| m[i]) { Some(i) } else { None };
+            let got = std::panic::catch_unwind(std::panic::AssertUnwindSafe(|| wf.get_cell_at(i).map(|c| c.idx)));
+            if got.as_ref().ok() != Some(&want) {
+                return json!({"bad": {"what": "after with_faces(), get_cell_at(i) is not the cell of generator i (None for an unconstructed one)", "i": i, "got": format!("{:?}", got), "want": want}});
+            }
+        }
         let cf: Vec<Moments> = wf.compute_cell_integrals::<Moments>();
         for (a, b) in cm.iter().zip(cf.iter()) {
             for i in 0..10 {
@@ -213,6 +220,13 @@ fn moments(req: &Value) -> Value {
         }
         if !close(p.integral().area, a.integral().area, sc * sc) || p.left() != a.left() || p.right() != a.right() {
             return json!({"bad": {"what": "signed areas fed to a custom face integral do not sum to the face area", "left": p.left(), "custom": p.integral().area, "builtin": a.integral().area}});
+        }
+    }
+    // every face of the cell is fed: a single generator in a reflective box has the 2d walls as faces, wherever it sits (also ON a wall)
+    if gens.len() == 1 && !periodic {
+        let dimn = req["dim"].as_u64().unwrap_or(3) as usize;
+        if fp.len() != 2 * dimn {
+            return json!({"bad": {"what": "a single-generator cell in a reflective box must report its 2d wall faces to a face integral", "faces_fed": fp.len(), "want": 2 * dimn}});
         }
     }
     let _ = vi.compute_cell_integrals::<VolumeCentroidIntegral>();
